@@ -23,6 +23,12 @@ impl<const I: usize> ::core::ops::{tr}Assign for Tg<I> {{ fn {m}_assign(&mut sel
 impl<const I: usize> ::core::ops::{tr}<Sc> for Tg<I> {{ type Output = Tg<I>; fn {m}(self, r: Sc) -> Tg<I> {{ Tg(bin("{m}", self.0, Term::Leaf(r.0))) }} }}
 impl<const I: usize> ::core::ops::{tr}Assign<Sc> for Tg<I> {{ fn {m}_assign(&mut self, r: Sc) {{ let l = ::core::mem::replace(&mut self.0, Term::Leaf(0)); self.0 = bin("{m}", l, Term::Leaf(r.0)); }} }}
 """.format(tr=tr, m=m))
+    # an operand type that can ONLY be combined with the scalar (no `Ts op Ts`): the scalar derives must not ask for more
+    for tr, m in MUL:
+        out.append("""
+impl<const I: usize> ::core::ops::{tr}<Sc> for Ts<I> {{ type Output = Ts<I>; fn {m}(self, r: Sc) -> Ts<I> {{ Ts(bin("{m}", self.0, Term::Leaf(r.0))) }} }}
+impl<const I: usize> ::core::ops::{tr}Assign<Sc> for Ts<I> {{ fn {m}_assign(&mut self, r: Sc) {{ let l = ::core::mem::replace(&mut self.0, Term::Leaf(0)); self.0 = bin("{m}", l, Term::Leaf(r.0)); }} }}
+""".format(tr=tr, m=m))
     for tr, m in UN:
         out.append("""
 impl<const I: usize> ::core::ops::{tr} for Tg<I> {{ type Output = Tg<I>; fn {m}(self) -> Tg<I> {{ Tg(Term::Un("{m}", Box::new(self.0))) }} }}
@@ -39,6 +45,8 @@ pub fn un(op: &'static str, l: Term) -> Term { Term::Un(op, Box::new(l)) }
 pub struct Tg<const I: usize>(pub Term);
 #[derive(Clone, Copy, Debug, PartialEq)]
 pub struct Sc(pub u32);
+#[derive(Clone, Debug, PartialEq)]
+pub struct Ts<const I: usize>(pub Term);
 pub fn lf<const I: usize>(n: u32) -> Tg<I> { Tg(Term::Leaf(n)) }
 impl<const I: usize> ::core::iter::Sum for Tg<I> { fn sum<It: Iterator<Item = Self>>(it: It) -> Self { it.fold(Tg(Term::Leaf(1000 + I as u32)), |a, b| a + b) } }
 impl<const I: usize> ::core::iter::Product for Tg<I> { fn product<It: Iterator<Item = Self>>(it: It) -> Self { it.fold(Tg(Term::Leaf(2000 + I as u32)), |a, b| a * b) } }
@@ -127,6 +135,29 @@ pub fn run(r: &mut R) {
     return Case(cid, mod, meta={"kind": "struct", "named": named, "n": n, "typing": typing, "forward": forward, "src": src})
 
 
+def scalar_only_case(cid, named, n, generic):
+    """Scalar Mul-like derives on a type whose fields support the operator with the scalar only."""
+    names = ["f%d" % i for i in range(n)] if named else [str(i) for i in range(n)]
+    tys = ["T"] * n if generic else ["Ts<%d>" % i for i in range(n)]
+    idx = [0] * n if generic else list(range(n))
+    body = ("{ " + ", ".join("pub %s: %s" % (a, t) for a, t in zip(names, tys)) + " }") if named else ("(" + ", ".join("pub " + t for t in tys) + ");")
+    derives = [d for d, _ in MUL] + [d + "Assign" for d, _ in MUL]
+    val = "S%s" % mk(named, names, ["Ts::<%d>(Term::Leaf(%d))" % (idx[i], 10 + i) for i in range(n)])
+    lines = []
+    for tr, m in MUL:
+        exp = mk(named, names, ['Ts::<%d>(bin("%s", Term::Leaf(%d), Term::Leaf(7)))' % (idx[i], m, 10 + i) for i in range(n)])
+        lines.append('r.eq("%s scalar on scalar-only fields", ::core::ops::%s::%s(%s, Sc(7)), S%s);' % (tr, tr, m, val, exp))
+        lines.append('{ let mut x = %s; ::core::ops::%sAssign::%s_assign(&mut x, Sc(7)); r.eq("%sAssign scalar on scalar-only fields", x, S%s); }' % (val, tr, m, tr, exp))
+    mod = """use super::*;
+#[derive(Clone, Debug, PartialEq, %s)]
+pub struct S%s%s
+pub fn run(r: &mut R) {
+    %s
+}""" % (", ".join("derive_more::" + d for d in derives), "<T>" if generic else "", body, "\n    ".join(lines))
+    src = "struct S%s%s [scalar Mul-like derives; field type implements Op<Scalar> only]" % ("<T>" if generic else "", body)
+    return Case(cid, mod, meta={"kind": "struct", "named": named, "n": n, "typing": "scalar-only" + ("/generic" if generic else ""), "forward": False, "src": src})
+
+
 VK = {"unit": [], "t1": [0], "t2": [0, 1], "n2": [0, 1], "n1": [0], "t3": [0, 1, 2]}
 
 
@@ -209,7 +240,11 @@ def run(chk, tier):
                     continue
                 for forward in (False, True):
                     cases.append(struct_case("s%d" % len(cases), named, n, typing, forward))
-    chk.part("structs", shapes="tuple/named x 1..%d fields" % nmax, typings=["distinct", "same", "generic<T>"],
+    for named in (False, True):
+        for n in (1, 2, 3):
+            for generic in (False, True):
+                cases.append(scalar_only_case("s%d" % len(cases), named, n, generic))
+    chk.part("structs", shapes="tuple/named x 1..%d fields" % nmax, typings=["distinct", "same", "generic<T>", "fields that support the operator with the scalar only (concrete and generic<T>)"],
              modes=["scalar Mul-like", "forward"], programs=len(cases))
     e0 = len(cases)
     vk = ["unit", "t1", "t2", "n2"] + (["n1", "t3"] if thorough else [])
